@@ -193,18 +193,32 @@ def main(tier: str) -> int:
     jlines.insert(0, "import TFV.Generated.Src.SHAGA_randn")
     for v_ in ncases:
         jlines.append("#eval IO.println (showS (SHAGA_randn (fun _ _ _ => (%d : Rat) / 16) (1 / 2) (1 / 10)))" % round(v_ * 16))
+    ccases = []
+    for _ in range(8):
+        seq_ = [rng.choice([-4, 0, 11, 12, 40, -1]) / 16 for _ in range(rng.randint(0, 3))] + [rng.choice([1, 5, 10]) / 16]     # str_len 8: 5/8 = 10/16 is the upper end
+        ccases.append(seq_)
+    jlines.insert(0, "import TFV.Generated.Src.SHAGA_randc")
+    for seq_ in ccases:
+        jlines.append("#eval IO.println (showS (SHAGA_randc (fun _ _ k => (%s : List Rat).getD k 0) 8 (1 / 2) (1 / 10) %d))" % (q8(seq_), len(seq_)))
     jaudit = C.LEAN / "TFV" / "Audit" / "C15_np.lean"
     jaudit.parent.mkdir(parents=True, exist_ok=True)
     jaudit.write_text("\n".join(jlines) + "\n")
     with C.LeanLock():
         jpr = subprocess.run(["lake", "env", "lean", str(jaudit.relative_to(C.LEAN))], cwd=C.LEAN, capture_output=True, text=True, timeout=900)
     jgot = [l.strip() for l in jpr.stdout.splitlines() if l.strip()]
-    chk.obligation("the translated jDE regeneration functions evaluate (lake env lean TFV/Audit/C15_np.lean)", jpr.returncode == 0 and len(jgot) == len(jcases) + len(ucases) + len(lcases) + len(ncases), (jpr.stdout + jpr.stderr)[-600:])
-    if jpr.returncode == 0 and len(jgot) == len(jcases) + len(ucases) + len(lcases) + len(ncases):
+    chk.obligation("the translated jDE regeneration functions evaluate (lake env lean TFV/Audit/C15_np.lean)", jpr.returncode == 0 and len(jgot) == len(jcases) + len(ucases) + len(lcases) + len(ncases) + len(ccases), (jpr.stdout + jpr.stderr)[-600:])
+    if jpr.returncode == 0 and len(jgot) == len(jcases) + len(ucases) + len(lcases) + len(ncases) + len(ccases):
         import thefittest.optimizers._shaga as SGM
         saved_cauchy = SGM.cauchy_distribution
         try:
             sgn = _SHAGA(fitness_function=lambda x: np.sum(x, axis=1, dtype=np.float64), iters=2, pop_size=4, str_len=8)
+            for seq_, g in zip(ccases, jgot[len(jcases) + len(ucases) + len(lcases) + len(ncases):]):
+                it_ = iter(seq_)
+                SGM.cauchy_distribution = lambda loc, scale, size, _it=it_: np.array([next(_it)], dtype=np.float64)
+                real = float(sgn._randc(0.5, 0.1))
+                val = None if g == "none" else int(g.split("/")[0]) / int(g.split("/")[1])
+                chk.count("np_kernel_randc")
+                (chk.agree("np_kernel:shaga_randc") if val is not None and real == val else chk.disagree("np_kernel:shaga_randc", {"input": {"cauchy_values": seq_}, "impl": real, "model": g}))
             for v_, g in zip(ncases, jgot[len(jcases) + len(ucases) + len(lcases):]):
                 SGM.cauchy_distribution = lambda loc, scale, size, _v=v_: np.array([_v], dtype=np.float64)
                 real = float(sgn._randn(0.5, 0.1))
